@@ -50,6 +50,21 @@ Theorem C19_translation_invariant cv th reach (cam other t : vec3 R) :
   = detects R_ops cv th reach cam other.
 Proof. apply detects_translation_invariant. Qed.
 
+(** The full characterisation of the model's cone test over the reals (Cauchy-Schwarz makes the
+    clamp the identity): beyond the reach a node is never reported; at the camera's own position
+    always; otherwise iff the cosine of its deviation from the (unit) axis is at least
+    cos(theta + 1e-6), i.e. iff it deviates by at most the cone angle (+ the code's tolerance).
+    Sound and complete, for every orientation, cone angle up to pi and placement. *)
+Theorem C19_cone_sound_and_complete (cv cam other : vec3 R) (theta reach : R) :
+  dot3 cv cv = 1%R -> (0 <= theta + 1 / 1000000 <= PI)%R ->
+  let r := rel3 cam other in
+  let d := sqrt (dot3 r r) in
+  detects R_ops cv theta reach cam other =
+  Some (if Rltb reach d then false
+        else if Rltb 0 d then (if Rle_dec (cos (theta + 1 / 1000000)) (dot3 cv r / d) then true else false)
+        else true).
+Proof. apply detects_cone_R. Qed.
+
 Print Assumptions C19_never_fails.
 Print Assumptions C19_clamp_in_domain.
 Print Assumptions C19_entries.
@@ -57,3 +72,4 @@ Print Assumptions C19_axis_is_unit.
 Print Assumptions C19_clamp_identity.
 Print Assumptions C19_cone_test.
 Print Assumptions C19_translation_invariant.
+Print Assumptions C19_cone_sound_and_complete.
